@@ -136,7 +136,58 @@ def family(rng, quick):
                     continue
                 g["shape"] = [(tname, target), (TEMPLATES[p1t][0], "P0"), ("nullable", "")]
                 gs.append(g)
+    # nullability that closes only through a CYCLE of productions: Q = ("a" P)*, P = Q "b"?, S uses P (or Q) as a nullable prefix
+    # before re-entering itself - for every order of S's alternatives and every production as the one met first
+    import itertools as _it
+    SR = lambda: cap("K", "union", {"op": "union", "u": "U0"})
+    QR = lambda f="Q": cap(f, "union", {"op": "union", "u": "U1"})
+    PRs = lambda: cap("Ps", "unions", {"op": "union", "u": "U2"})
+    PR = lambda: cap("Pf", "union", {"op": "union", "u": "U2"})
+    for prefix in ("P", "Q"):
+        alts = [seq(L, QR(), lit(")")), seq(PR() if prefix == "P" else QR("Q2"), SR(), B), cap("T", "string", ref("Ident"))]
+        for perm in _it.permutations(range(3)):
+            body0 = alt(*[alts[i] for i in perm])
+            f0 = [P.F("Q", "union", "U1"), P.F("K", "union", "U0"), P.F("T", "string")] + ([P.F("Pf", "union", "U2")] if prefix == "P" else [P.F("Q2", "union", "U1")])
+            body1 = grp("star", seq(A, PRs()))
+            body2 = seq(QR(), grp("opt", B))
+            try:
+                g = P.mk_grammar("c%d" % len(gs), [("P0", body0, f0), ("P1", body1, [P.F("Ps", "unions", "U2")]), ("P2", body2, [P.F("Q", "union", "U1")])],
+                                 unions={"U0": ["P0"], "U1": ["P1"], "U2": ["P2"]}, ks=(1,))
+            except ValueError:
+                continue
+            g["shape"] = [("cyclic-nullable-prefix-" + prefix, "".join(map(str, perm)))]
+            gs.append(g)
+    gs += static_grammars()
     return gs
+
+
+def static_grammars():
+    """descriptions, in the node algebra, of the hand-written Go grammars of harness/cmd/vh/leftrec_static.go (productions that
+    refer to one another directly; local types of the same name)"""
+    node = lambda f, p, many=False: cap(f, "nodes" if many else "node", {"op": "prod", "p": p})
+    F = P.F
+    out = []
+
+    def add(gid, prods):
+        g = P.mk_grammar(gid, prods, ks=(1,))
+        g["static"] = True
+        g["shape"] = [("static Go types", gid)]
+        out.append(g)
+    Q = ("P1", grp("star", seq(A, node("Ps", "P2", True))), [F("Ps", "nodes", "P2")])
+    Pp = ("P2", seq(node("Q", "P1"), grp("opt", B)), [F("Q", "node", "P1")])
+    f0 = [F("Q", "node", "P1"), F("Pf", "node", "P2"), F("S", "node", "P0"), F("T", "string")]
+    a1, a2, a3 = seq(L, node("Q", "P1"), lit(")")), seq(node("Pf", "P2"), node("S", "P0"), B), cap("T", "string", ref("Ident"))
+    add("st-cyclic-nullable-1", [("P0", alt(a1, a2, a3), f0), Q, Pp])
+    add("st-cyclic-nullable-2", [("P0", alt(a2, a1, a3), f0), Q, Pp])
+    add("st-cyclic-lookalike", [("P0", alt(a1, seq(node("Pf", "P2"), A, node("S", "P0"), B), a3), f0), Q, Pp])
+    add("st-self-slice", [("P0", seq(grp("star", node("Kids", "P0", True)), cap("Name", "string", ref("Ident"))), [F("Kids", "nodes", "P0"), F("Name", "string")])])
+    add("st-right", [("P0", seq(cap("Name", "string", ref("Ident")), grp("opt", seq(L, node("Next", "P0")))), [F("Name", "string"), F("Next", "node", "P0")])])
+    item1 = ("P2", cap("Name", "string", ref("Ident")), [F("Name", "string")])
+    lst = ("P1", seq(L, grp("star", node("Items", "P2", True)), lit(")")), [F("Items", "nodes", "P2")])
+    item2 = ("P3", alt(seq(node("Left", "P3"), B, cap("Right", "string", ref("Ident"))), cap("Atom", "string", ref("Ident"))), [F("Left", "node", "P3"), F("Right", "string"), F("Atom", "string")])
+    add("st-same-name", [("P0", alt(node("List", "P1"), node("Sum", "P3")), [F("List", "node", "P1"), F("Sum", "node", "P3")]), lst, item1, item2])
+    add("st-same-name-ok", [("P0", node("List", "P1"), [F("List", "node", "P1")]), lst, item1])
+    return out
 
 
 def run(pid, tier, args):
@@ -196,7 +247,7 @@ def run(pid, tier, args):
                 bad = "grammar without left recursion rejected: %s" % r[:160]
             elif s == "lr" and "left recursion" not in r:
                 log("note: %s rejected for another reason: %s" % (g["id"], r[:100]))
-            if r == "ok":
+            if r == "ok" and not g.get("static"):
                 accepted.append(g)
             if bad:
                 key = (bad[:25], str(g.get("shape", ""))[:40])
